@@ -243,6 +243,7 @@ func asm14RealExec(c *Ctx, op string) {
 		"w1": {d(""), fl("file1", "one"), d("d"), ln("lnk", "d"), fl("d/inner1", "i1"), d("d/deep"), d("d/deep/er")},
 		"w2": {d(""), fl("file2", "two"), ln("abs", sandboxOutside), d("sub"), d("sub/deeper")},
 		"w3": {d(""), ln("up", "../.."), fl("file3", "three")},
+		"w4": {d(""), fl("file4", "four"), Entry{Name: "shared", Kind: 'd', Perms: 02775, Uid: 7, Gid: 7, Sec: 1e9}},
 	}
 	{
 		acc := ""
@@ -441,7 +442,7 @@ func asm14RealExec(c *Ctx, op string) {
 			get["/"+e.Name] = e
 		}
 		for _, a := range ins {
-			marker := map[string]string{"w0": "file0", "w1": "file1", "w2": "file2", "w3": "file3", "ro": "hostfile", "rw": "hostfile"}[a.kind]
+			marker := map[string]string{"w0": "file0", "w1": "file1", "w2": "file2", "w3": "file3", "w4": "file4", "ro": "hostfile", "rw": "hostfile"}[a.kind]
 			p := strings.TrimSuffix(a.path, "/") + "/" + marker
 			covered := false
 			for _, b := range ins {
@@ -471,8 +472,18 @@ func asm14RealExec(c *Ctx, op string) {
 				p := "/" + strings.Join(cs[:k], "/")
 				supplied := strings.HasPrefix(p, "/pre")
 				for _, b := range ins {
-					if isPrefix(comps(b.path), cs[:k]) {
-						supplied = true
+					if !isPrefix(comps(b.path), cs[:k]) {
+						continue
+					}
+					fsb, isWare := filesets[b.kind]
+					if !isWare {
+						supplied = true // a host mount: whatever is below it is the host's
+						continue
+					}
+					for _, e := range fsb {
+						if strings.TrimSuffix(strings.TrimSuffix(b.path, "/")+"/"+e.Name, "/") == p || (e.Name == "" && strings.TrimSuffix(b.path, "/") == strings.TrimSuffix(p, "/")) {
+							supplied = true
+						}
 					}
 				}
 				if e, ok := get[p]; ok && !supplied && (e.Perms != 0711 || e.Uid != 42 || e.Gid != 43) {
@@ -668,6 +679,8 @@ func asm14Engine(c *Ctx) {
 		"/=w0,/d/x=w1", "/=w1,/lnk/x=w0", "/=w2,/abs/x=w0", "/=w3,/up/x=w0", "/a=ro,/ab=w0", "/a=ro,/a/b=w0", "/m=rw,/m/hsub/x=w0",
 		"/=w0,/d=w1,/d/d=w0", "/x/y/z=w0", "/pre/existing/new=w0", "/data=ro,/data-extra=w0,/data/sub=w1", "/=w1,/lnk=w0,/lnk/x=w2",
 		// an input exactly at a path where a shallower ware supplies a symlink (to a directory inside, outside, above)
+		// filler directories below a setgid directory that a shallower ware supplies (the kernel makes new directories inherit the bit)
+		"/=w4,/shared/new/deeper/m=w0", "/=w4,/shared/new/m=ro", "/a=w4,/a/shared/x/y=w1",
 		// a symlink higher up the parent chain whose remaining chain exists behind the link (relative / absolute, re-rooted)
 		"/=w1,/lnk/deep/x=w0", "/=w1,/lnk/deep/er/x=w0", "/=w2,/abs/osub/x=w0", "/a=w1,/a/lnk/deep/x=w0", "/=w1,/lnk/deep/x=ro",
 		"/=w1,/lnk=w0", "/=w1,/lnk=ro", "/=w1,/lnk=rw", "/=w2,/abs=w0", "/=w2,/abs=rw", "/=w3,/up=ro", "/a=w1,/a/lnk=rw", "/a=w2,/a/abs=ro",
